@@ -2,19 +2,57 @@
 //! extracted from sass/functions/map.rs on every run (tools/extract.py) and
 //! instantiated at a mock value type with the constructors it uses (an atom
 //! and a nested map): maps of css::Value are out of CBMC's reach.  OrderMap
-//! is the real generic one.  MEASURED: even one insertion into a map of this
-//! (recursive) mock type exceeds 15 minutes in CBMC — the harness is a
-//! thorough-tier attempt and has never finished; map.merge / set are NOT
-//! covered by any discharged obligation.  map.get / map.has-key ARE (mod
-//! `lookup` below: nested maps behind references, no drop glue).
+//! is the real generic one.  MEASURED: with a plainly recursive mock type
+//! even one insertion exceeds 15 minutes in CBMC; with the nested map in
+//! ManuallyDrop and a non-recursive `==` (below) CBMC still runs out of
+//! memory — the merge harness is a thorough-tier attempt and has never
+//! finished; map.merge / set are NOT covered by any discharged obligation.
+//! map.get / map.has-key ARE (mod `lookup` below: nested maps behind
+//! references, no drop glue).
 use crate::ordermap::OrderMap;
 
-#[derive(Clone, PartialEq, Debug)]
+/// Stand-in value type for the merge worker: an atom or a nested map.  The
+/// nested map is wrapped in ManuallyDrop (no recursive drop glue) and `==`
+/// on nested maps is false (no recursive comparison; no harness uses a map
+/// as a key) — both recursions are what CBMC does not finish on.
+#[derive(Clone, Debug)]
 enum Value {
     Atom(u8),
     Map(ValueMap),
 }
-type ValueMap = OrderMap<Value, Value>;
+impl PartialEq for Value {
+    fn eq(&self, other: &Value) -> bool {
+        match (self, other) {
+            (Value::Atom(a), Value::Atom(b)) => a == b,
+            _ => false,
+        }
+    }
+}
+#[derive(Clone, Debug)]
+struct ValueMap(std::mem::ManuallyDrop<OrderMap<Value, Value>>);
+impl ValueMap {
+    fn new() -> ValueMap {
+        ValueMap(std::mem::ManuallyDrop::new(OrderMap::new()))
+    }
+}
+impl std::ops::Deref for ValueMap {
+    type Target = OrderMap<Value, Value>;
+    fn deref(&self) -> &Self::Target {
+        &self.0
+    }
+}
+impl std::ops::DerefMut for ValueMap {
+    fn deref_mut(&mut self) -> &mut Self::Target {
+        &mut self.0
+    }
+}
+impl IntoIterator for ValueMap {
+    type Item = (Value, Value);
+    type IntoIter = <OrderMap<Value, Value> as IntoIterator>::IntoIter;
+    fn into_iter(self) -> Self::IntoIter {
+        std::mem::ManuallyDrop::into_inner(self.0).into_iter()
+    }
+}
 
 //@item file=rsass/src/sass/functions/map.rs kind=fn name=do_merge
 //@end
